@@ -256,6 +256,14 @@ def structural(rng, b, v1):
     for n in (0, 16, 31, 32, 33):
         var("uiHeartbeat", "ud-%d" % n, lambda r, n=n: r.__setitem__("udValue", "ab" * n))
     a = "advanceBlockchain"
+    # many blocks: the documents put no bound on their number (256 / 257 is where small
+    # integers stop being shared objects, 65536 would not fit a two-byte count)
+    tiny = gb.gen_block(rng, 19, tiny=True)["raw"].hex()
+    for nblk in (255, 256, 257, 300, 1000):
+        var(a, "blocks-%d" % nblk, lambda r, nblk=nblk: r.update(blocks=[tiny] * nblk,
+                                                                 brothers=[[]] * nblk))
+        var("updateAncestorBlock", "blocks-%d" % nblk,
+            lambda r, nblk=nblk: r.update(blocks=[tiny] * nblk))
     var(a, "brothers-short", lambda r: r["brothers"].pop())
     var(a, "brothers-long", lambda r: r["brothers"].append([]))
     var(a, "brothers-11", lambda r: r["brothers"].__setitem__(0, r["brothers"][0] * 11))
